@@ -17,7 +17,7 @@ impl Univ {
     }
     fn variants(&self) -> &'static [Variant] {
         match self.id {
-            "C01" => &[Variant::Dbg, Variant::Rel],
+            "C01" => &[Variant::Dbg, Variant::Rel, Variant::DbgNosep, Variant::Nosep],
             "C02" => &[Variant::Rel, Variant::Dbg, Variant::Nosep],
             "C03" => &[Variant::Rel, Variant::Dbg],
             "C04" | "C05" => &[Variant::Rel, Variant::Dbg],
